@@ -158,7 +158,7 @@ func (r *Run) whoami(label string) string {
 		return name
 	}
 	ro := role()
-	if label != "" {
+	if label != "" && !r.RoleThreads {
 		return label + "#" + ro
 	}
 	return ro
